@@ -12,8 +12,8 @@ def sh(cmd, cwd=None, timeout=900):
     return r.returncode, r.stdout
 
 
-def confirm(prop):
-    src = "/tmp/seed/%s/_seed" % prop
+def confirm(prop, root="/tmp/seed", offset=0):
+    src = "%s/%s/_seed" % (root, prop)
     for n in (1, 2):
         diff = os.path.join(src, "%d.diff" % n)
         demo = os.path.join(src, "zz_demo_%d_test.go" % n)
@@ -38,12 +38,12 @@ def confirm(prop):
             if not ok:
                 print(out0[-300:], outb[-300:], out1[-300:], out2[-300:])
                 continue
-            dst = "/verif/seeded/%s-%d" % (prop, n)
+            dst = "/verif/seeded/%s-%d" % (prop, n + offset)
             os.makedirs(dst, exist_ok=True)
             shutil.copy(diff, os.path.join(dst, "patch.diff"))
             shutil.copy(demo, os.path.join(dst, "zz_demo_test.go"))
             notes = open(os.path.join(src, "notes.md")).read() if os.path.exists(os.path.join(src, "notes.md")) else ""
-            meta = {"id": "%s-%d" % (prop, n), "breaks": [prop], "source": "independent sub-agent given only the property text",
+            meta = {"id": "%s-%d" % (prop, n + offset), "breaks": [prop], "round": 2 if offset else 1, "source": "independent sub-agent given only the property text",
                     "needs": "see notes.md", "confirmed": {"against": sh("git -C /repo rev-parse --short HEAD")[1].strip(),
                     "pristine_demo_passes": True, "builds": True, "baseline_30_tests_pass": True, "mutated_demo_fails": True,
                     "demo_failure_tail": out2[-600:]},
@@ -88,5 +88,8 @@ if __name__ == "__main__":
     if sys.argv[1] == "confirm":
         for p in sys.argv[2:]:
             confirm(p)
+    elif sys.argv[1] == "confirm2":
+        for p in sys.argv[2:]:
+            confirm(p, "/tmp/seed2", 2)
     elif sys.argv[1] == "run":
         run(sys.argv[2], sys.argv[3] if len(sys.argv) > 3 else "quick", sys.argv[4].split(",") if len(sys.argv) > 4 else None)
